@@ -610,6 +610,7 @@ func (l *ledGen) drain() {
 }
 
 func genLed(g *Gen) {
+	genCodecInto(g) // byte-level tie of the bucket codecs (engine codec), part of C01 / C09 / C10
 	nHist := g.Scale(120, 4000)
 	for h := 0; h < nHist || (!g.Covered() && h < 6*nHist); h++ {
 		l := newLedGen(g, "led")
